@@ -219,6 +219,22 @@ func RunModel(conf *cfg.Config, ops []probe.Op, env map[string]string) []Expect 
 			}
 			it.OverrideService(op.Name, o)
 			e.Judged = true
+		case "adddecorator":
+			dec := cfg.Decorator{Tag: op.Name, Decorator: `"` + op.Ctor[:strings.LastIndex(op.Ctor, ".")] + `".` + op.Ctor[strings.LastIndex(op.Ctor, ".")+1:]}
+			for _, d := range op.Deps {
+				switch d.Dep {
+				case "service":
+					dec.Args = append(dec.Args, cfg.Str("@"+d.Name))
+				case "tag":
+					dec.Args = append(dec.Args, cfg.Str("!tagged "+d.Name))
+				case "param":
+					dec.Args = append(dec.Args, cfg.Str("%"+d.Name+"%"))
+				default:
+					dec.Args = append(dec.Args, cfg.Str(d.V))
+				}
+			}
+			it.AddDecorator(dec)
+			e.Judged = true
 		case "setenv":
 			it.Env[op.Name] = op.Val
 			e.Judged = true
@@ -414,7 +430,7 @@ func CompareHistory(u *probe.Unit, exp []Expect, skipTainted bool) (mm []Mismatc
 			if r.Bool == nil || *r.Bool != *e.Bool {
 				mm = append(mm, Mismatch{i, "is-tagged-by", fmt.Sprintf("%s %s: IsTaggedBy answered %v, expected %v", label, op.Val, r.Bool != nil && *r.Bool, *e.Bool)})
 			}
-		} else if op.Op == "new" || op.Op == "circular" || op.Op == "overrideparam" || op.Op == "overridesvc" || op.Op == "setenv" || op.Op == "unsetenv" || op.Op == "api" || op.Op == "istagged" {
+		} else if op.Op == "new" || op.Op == "circular" || op.Op == "overrideparam" || op.Op == "overridesvc" || op.Op == "adddecorator" || op.Op == "setenv" || op.Op == "unsetenv" || op.Op == "api" || op.Op == "istagged" {
 			if r.Err != "" || !r.OK {
 				mm = append(mm, Mismatch{i, op.Op + "-failed", fmt.Sprintf("%s: failed: %s", label, r.Err)})
 				if op.Op == "new" {
